@@ -276,17 +276,23 @@ def nil_safe(cfg):
     return re.search(r"ValidatorNilSafe = (\w+)", txt).group(1) == "TRUE"
 
 
-def expected(df, st, t, nilsafe=True):
+def open_panics(cfg):
+    """OpenPanics of a cfg: defect classes that still end in a nil dereference (open known finding)"""
+    txt = open(os.path.join(vlib.SPEC, "cfg", cfg)).read()
+    return set(re.findall(r'"([\w@:-]+)"', re.search(r"OpenPanics = \{(.*?)\}", txt).group(1)))
+
+
+def expected(df, st, t, nilsafe=True, panics=()):
     if not st["sigok"][t]:
         return "rejected"
-    if df in PANIC and not nilsafe:
+    if df in panics or (df in PANIC and not nilsafe):
         return "panic"
     if df in LAX:
         return st["verdicts"][t]
     return "rejected"
 
 
-def amb_scripts(states, prefix, defects, carriers, n_states, n_defect_probes, rnd, nilsafe=True, kinds=None):
+def amb_scripts(states, prefix, defects, carriers, n_states, n_defect_probes, rnd, nilsafe=True, kinds=None, panics=()):
     states = sorted(states, key=lambda s: json.dumps(s["path"], sort_keys=True))
     if n_states and len(states) > n_states:
         # keep the shortest and the longest paths, sample the rest
@@ -309,7 +315,7 @@ def amb_scripts(states, prefix, defects, carriers, n_states, n_defect_probes, rn
             pool = present if cursor % 5 == 4 else eff
             c = pool[(cursor // len(defects) + j) % len(pool)]
             cursor += 1
-            probes.append(dict(t=c, df=df, res=expected(df, st, c, nilsafe), auth=st["authorised"][c]))
+            probes.append(dict(t=c, df=df, res=expected(df, st, c, nilsafe, panics), auth=st["authorised"][c]))
         # one well-formed document with a verification method of another kind (no prediction by the model)
         if present and kinds:
             probes.append(dict(t=eff[i % len(eff)], df="ok@" + kinds[i % len(kinds)], res="", auth=st["authorised"][eff[i % len(eff)]]))
@@ -373,7 +379,7 @@ def run_amb(prop, tier, seed, rep, t0):
     n_states_total = 0
     base_inputs = {}
     plans = [("DidStore.amb.gen%s.cfg" % ("" if quick else ".thorough"), "m", ["A", "B", "C"], (["cA", "uA1", "uAx"] if quick else ["cA", "uA1", "uAx", "uAbB"]),
-              (60 if quick else 600), (6 if quick else 8)),
+              (60 if quick else 400), (6 if quick else 8)),
              ("DidStore.chain.gen.cfg", "c", ["D1", "D2", "D3", "D4", "D5", "D6", "D7"], ["h1", "g2"], (24 if quick else 0), 2)]
     tables = None
     for cfg, prefix, dids, carriers, n_states, n_def in plans:
@@ -385,7 +391,7 @@ def run_amb(prop, tier, seed, rep, t0):
         sts = [s for s in sts if isinstance(s, dict) and "path" in s]
         n_states_total += len(sts)
         models.append(model_entry(cfg, g, note="one witness path per distinct state + verdict table"))
-        scripts = amb_scripts(sts, prefix, tables["Defects"], carriers, n_states, n_def, rnd, nil_safe(cfg), tables.get("VMKinds"))
+        scripts = amb_scripts(sts, prefix, tables["Defects"], carriers, n_states, n_def, rnd, nil_safe(cfg), tables.get("VMKinds"), open_panics(cfg))
         base_input = dict(mode="ambassador", tables=tables, k=1, dids=dids)
         base_inputs[prefix] = base_input
         rs = vlib.run_driver_parallel(binary, dict(base_input, scripts=scripts), shards=SHARDS, timeout=1500)
